@@ -194,6 +194,7 @@ def hist_units(prop, tier, seed):
                     a["avoid"] = avoid
                 if prop == "C18":
                     a["junk-diff"] = 1
+                a["focus"] = prop
                 n = cases if fl != "casan" else cases // 3
                 units.append(Unit("hist", cfg, k, fl, a, n, batch=25 if tier == "quick" else 100))
     # dedicated probe units for the open findings of this property: no avoidance, so the listed defect is still driven
@@ -211,6 +212,8 @@ def hist_units(prop, tier, seed):
 def run_hist_check(prop, tier):
     t0 = time.time()
     units = hist_units(prop, tier, vf.SEED)
+    if prop in ("C02", "C03", "C04", "C05", "C10"):
+        units += layout_units(prop, tier, vf.SEED)
     errs = vf.run_units(units)
     return vf.conclude(prop, tier, "exploration", units, errs, HIST_PROPS[prop][1], t0,
                        assumptions=["generated histories respect the documented preconditions (size() < capacity(), payload within the byte budget, count == range length)",
@@ -517,6 +520,62 @@ def run_race_check(tier):
                        assumptions=["ThreadSanitizer sees only races between accesses that actually execute in the run", "value types are scalars, trivially copyable structs and std::string (the instrumented type's registry is not thread-safe and is not used here)"])
 
 
+# ---------------------------------------------------------------------------------------------- layout engine (C02-C05)
+LAYOUT_TYPES = ["u8", "u16", "u32", "u64", "f32", "B3", "B12", "char", "bool"]
+LAYOUT_CORE = [
+    # the suite's typedefs and the shapes behind the layout defects found so far
+    "P:u32,P:f32", "P:char,P:u32@8", "P:u32,F:f32", "F:f32,P:u32,F:f32", "P:u32,F:f32@32", "F:f32@8,P:u32@16,F:f32", "F:f32@32,F:u32,P:u32", "P:u32,C:u64@8,V:f32",
+    "P:u32,C:u64@8,V:f32,C:u64@8,V:f32", "C:u64@8,V:f32@16,P:u32", "P:u32,C:u64@8,V:f32@8,C:u64@8,V:f32@16", "F:f32,P:u32,C:u64@8,V:f32", "F:f32@16,P:u32,C:u64@8,V:f32@8",
+    "P:u8,C:u64@8,V:char,C:i32,V:ptr@64,C:u32,V:u32,F:u64@4", "P:u8,F:u16@16,P:u8,F:u32@4,P:u64@8",
+    "C:u8,V:u8,P:u16@4", "C:u16,V:B3,C:u32,V:u64@8", "C:u64,V:u8,P:u64@8", "P:byte,C:u32,V:char,F:i16@2,C:u16,V:i16", "F:B12@16", "F:u64@1,F:u8",
+]
+
+
+def layout_family(rng, count):
+    """Parameter lists built around one or two spans: prefix / span (kind, type, alignment) / suffix, all trivially copyable."""
+    out = []
+    aligns = [0, 0, 1, 2, 4, 8, 16, 32, 64]
+    seen = set()
+    guard = 0
+    while len(out) < count and guard < count * 50:
+        guard += 1
+        fields = []
+        for _ in range(rng.randint(0, 2)):
+            fields.append(("P", rng.choice(LAYOUT_TYPES), rng.choice(aligns)))
+        for _ in range(rng.randint(1, 2)):
+            k = rng.choice("FVV")
+            if k == "V":
+                fields.append(("C", rng.choice(vf.COUNT_TYPES), rng.choice([0, 0, 2, 4, 8, 8])))
+            fields.append((k, rng.choice(LAYOUT_TYPES), rng.choice(aligns)))
+            for _ in range(rng.randint(0, 1)):
+                fields.append(("P", rng.choice(LAYOUT_TYPES), rng.choice(aligns)))
+        if len(fields) > 7:
+            continue
+        s = ",".join("%s:%s%s" % (k, t, "@%d" % a if a else "") for k, t, a in fields)
+        if s in seen:
+            continue
+        seen.add(s)
+        out.append(s)
+    return out
+
+
+def layout_units(prop, tier, seed):
+    rng = random.Random(seed * 104729 + 7)
+    n = 72 if tier == "quick" else 360
+    configs = LAYOUT_CORE + layout_family(rng, n)
+    per_unit = 12
+    cases_per_cfg = 12 if tier == "quick" else 60
+    flavours = ["asan", "plain"] if tier == "quick" else ["asan", "plain", "casan"]
+    units = []
+    for i in range(0, len(configs), per_unit):
+        grp = configs[i:i + per_unit]
+        for fl in flavours:
+            a = {"seed": seed, "max-cap": 6 if tier == "quick" else 12, "max-span": 5 if tier == "quick" else 11}
+            n_cases = len(grp) * cases_per_cfg
+            units.append(Unit("layout", ";".join(grp), None, fl, a, n_cases if fl != "casan" else n_cases // 3, batch=len(grp) * 4, label="layout|group%d|%s" % (i // per_unit, fl)))
+    return units
+
+
 def setup():
     units = []
     for prop in ["C01"]:
@@ -545,8 +604,10 @@ def setup():
 
 
 def units_for(prop, tier, seed):
+    if prop == "LAYOUT":
+        return layout_units("C02", tier, seed)
     if prop in HIST_PROPS:
-        return hist_units(prop, tier, seed)
+        return hist_units(prop, tier, seed) + (layout_units(prop, tier, seed) if prop in ("C02", "C03", "C04", "C05", "C10") else [])
     if prop in ("C13", "C14"):
         return cmp_units(prop, tier, seed)
     if prop == "C11":
